@@ -3,7 +3,7 @@ import SvModel.Lemmas.Tree
 # C16 — tree traversal is a faithful pre-order with balanced events
 
 Model: `Core/Tree.lean` (hand transliteration of `Iter`, `EventIter`, `get_str`, `get_str_trim`,
-`unwrap_node!`). The tie to the code is (a) the generated conversion table `Gen/Conv.lean`
+`unwrap_node!`, the latter after the D12 repair). The tie to the code is (a) the generated conversion table `Gen/Conv.lean`
 (children are appended in field order for every tuple size and wrapper — see `C16_conv_identity`
 in `Props/C16Gen.lean`) and (b) the correspondence run of `svh c16` (model iteration vs
 `into_iter()`, `.event()` on real trees).
@@ -58,18 +58,15 @@ theorem C16_get_str_range (roots : List Tree) :
   rw [strAcc_preL roots (none, 0)]
   exact leafFold_range (leavesL roots)
 
-/-- `get_str_trim`, full statement restricted to trees in which no `WhiteSpace` node lies inside
-    another `WhiteSpace` node: the range runs from the first to the last leaf that is not below a
-    `WhiteSpace` node.
-
-    PARTIAL: the property is claimed for all nodes; the implementation tracks `WhiteSpace` nesting with a
-    boolean, so when a `WhiteSpace::CompilerDirective` (whose own tokens carry trailing `WhiteSpace`)
-    is present the boolean is cleared early (`C16_trim_nested_counterexample`, defect D12). -/
-theorem C16_get_str_trim_partial (ws : Nat) (roots : List Tree) (h : flatWsL ws roots = true) :
+/-- `get_str_trim` returns the range from the first to the last leaf that is not below a `WhiteSpace`
+    node — for all trees, including `WhiteSpace` nested in `WhiteSpace` (a kept compiler directive in
+    trailing trivia). This is the full statement; it holds for the code after the repair of defect D12
+    (`fix:` commit d8fdb04: depth counter instead of a boolean). -/
+theorem C16_get_str_trim (ws : Nat) (roots : List Tree) :
     getStrTrimRange ws (evAll roots) = leafRange (trimLeavesL ws roots) := by
   rw [C16_events_spec]
   unfold getStrTrimRange
-  have h1 := trim_flatL ws roots {} rfl h
+  have h1 := trim_flatL ws roots {} rfl
   simp only [h1]
   have h2 := trimAcc_leafAcc (trimLeavesL ws roots) {}
   have h3 := leafFold_range (trimLeavesL ws roots)
@@ -81,18 +78,15 @@ theorem C16_get_str_trim_partial (ws : Nat) (roots : List Tree) (h : flatWsL ws 
   rw [h2.1, h2.2]
   cases (List.foldl leafAcc (none, 0) (trimLeavesL ws roots)).fst <;> rfl
 
-/-- Witness that the restriction above is needed (model of defect D12): token `a` (0..1) followed by a
-    `WhiteSpace`(kind 7) holding a directive whose first token has its own trailing `WhiteSpace`; the
-    boolean is cleared by the inner Leave and the directive's second token (5..6) is counted. -/
-theorem C16_trim_nested_counterexample :
+/-- regression witness for D12: token `a` (0..1) followed by a `WhiteSpace` (kind 7) holding a directive whose
+    first token has its own trailing `WhiteSpace`; the directive's second token (5..6) is not counted. -/
+theorem C16_trim_nested_witness :
     let t := Tree.node 1 [.leaf 0 1 1,
       .node 7 [.node 2 [.leaf 2 1 1, .node 7 [.leaf 3 1 1]], .leaf 5 1 1]]
-    getStrTrimRange 7 (evAll [t]) = some (0, 6) ∧ leafRange (trimLeavesL 7 [t]) = some (0, 1) := by
+    getStrTrimRange 7 (evAll [t]) = some (0, 1) := by
   decide
 
 /-! Non-vacuity: the hypotheses are met by a non-trivial concrete tree. -/
-example : flatWsL 7 [Tree.node 1 [.leaf 0 1 1, .node 7 [.leaf 1 2 1], .node 3 [.leaf 3 4 1]]] = true := by
-  decide
 example : iterAll [Tree.node 1 [.leaf 0 1 1, .node 2 [.leaf 1 2 1]]] =
     [.node 1 [.leaf 0 1 1, .node 2 [.leaf 1 2 1]], .leaf 0 1 1, .node 2 [.leaf 1 2 1], .leaf 1 2 1] := by
   rfl
